@@ -19,6 +19,12 @@ CHECKS = {
             "clean exit, no sanitizer report, quit trailer reached within a 10 s (re-run 60 s) CPU limit.",
             "Sampled, not exhaustive; only the listed sanitizer classes count; streams without a reachable quit and "
             "self-executing registers are outside the domain.", "3/C05"),
+    "C16": ("exploration", "exhaustive enumeration (all scalar values; all short strings) + property-based strings and editing programs",
+            "Exhaustive over every Unicode scalar value and over all strings of <=4/5 characters from a 7-character alphabet of "
+            "1-4 byte characters against an independent segmentation; random strings to 200 characters; random character-wise "
+            "vi/ex editing programs over multi-byte text whose output must stay valid UTF-8 (ASan build).",
+            "Exhaustive only for the enumerated sub-spaces (flagged in evidence); the reference segmentation in models/utf8.py "
+            "is trusted.", "3/C16"),
 }
 
 ALL = ["C%02d" % i for i in range(1, 21)]
